@@ -40,6 +40,17 @@ def leaf_filters(g, flt, out=None):
             leaf_filters(x, flt, out)
     return out
 
+def seq_sigs(g, out=None):
+    """expected-descriptors of the elements of every seq in g: an error with such a descriptor may come from a seq, whose
+    parse-so-far span legitimately ends before tokens it consumed itself"""
+    if out is None: out = set()
+    if isinstance(g, list) and g:
+        if g[0] == 'seq':
+            for k in g[1:]: out.add('(tok %s)' % k)
+        for x in g[1:]:
+            if isinstance(x, list): seq_sigs(x, out)
+    return out
+
 def errors_of(it):
     """all error trees of a case output: returned errors and sink entries (tags stripped)"""
     out = []
@@ -139,7 +150,7 @@ class C13(GProp):
         fails = []
         flt = c['filter']
         simple = not has_filter_change(c['g'])
-        single = '(seq ' not in sexp.dump(c['g'])
+        seqs = seq_sigs(c['g'])
         lf = {} if simple else leaf_filters(c['g'], flt)
         def filter_at(exp):
             """(known, filter) active where the leaf expecting `exp` failed"""
@@ -179,6 +190,7 @@ class C13(GProp):
                     if es[1][0] > ts[0][0]:
                         fails.append((None, '%s unexpected-token error: parse-so-far span %s ends after the found token %s begins' % (how, d['es'][0], d['ts'][0])))
                     known, fl = filter_at(d['exp'][0])
+                    single = (sexp.dump(d['exp'][0]) if isinstance(d['exp'][0], list) else d['exp'][0]) not in seqs
                     if known and single:
                         between = [x for x in toks if x['start'][0] >= es[1][0] and x['end'][0] <= ts[0][0] and lexsim.keeps(fl, x['kind'])]
                         if between:
